@@ -4,6 +4,12 @@ from harness import fw
 from harness.oracle import json_to_wire  # noqa (re-exported)
 
 
+KEPT = []               # (result object, printer, the line it printed to when it was returned): re-printed at the end of the check (fw.finish)
+KEEP_ENABLED = True     # checks that deliberately edit the objects they are handed (C15, C18) switch this off and do their own value-semantics checks
+KEEP_MAX = 600
+_KEPT_N = [0]
+
+
 def outcome(f, pr):
     try:
         r = f()
@@ -12,9 +18,85 @@ def outcome(f, pr):
     except Exception as e:
         return "ERR " + fw.classify_exc(e)
     try:
-        return "OK " + pr(r)
+        line = "OK " + pr(r)
     except Exception as e:
         return "OK <unprintable result: %s %s>" % (type(e).__name__, e)
+    if KEEP_ENABLED and len(line) < 4000 and r is not None and not isinstance(r, (bytes, str, int, bool, tuple)):
+        if len(KEPT) < KEEP_MAX:
+            KEPT.append((r, pr, line))
+        else:
+            _KEPT_N[0] += 1
+            if _KEPT_N[0] % 5 == 0:          # keep sampling later results too
+                KEPT[100 + (_KEPT_N[0] // 5) % (KEEP_MAX - 100)] = (r, pr, line)
+    return line
+
+
+def dump(o, depth=0):
+    """deterministic structural print of a result object (dataclass attributes, enums by name, bytes as hex)"""
+    import enum
+    if depth > 6:
+        return "..."
+    if isinstance(o, enum.Enum):
+        return f"{type(o).__name__}.{o.name}"
+    if isinstance(o, (bytes, bytearray, memoryview)):
+        return "b:" + bytes(o).hex()
+    if isinstance(o, (str, int, float, bool)) or o is None:
+        return repr(o)
+    if isinstance(o, (list, tuple)):
+        return "[" + ", ".join(dump(x, depth + 1) for x in o) + "]"
+    if isinstance(o, dict):
+        return "{" + ", ".join(f"{dump(k, depth + 1)}: {dump(v, depth + 1)}" for k, v in o.items()) + "}"
+    if hasattr(o, "__dict__"):
+        return type(o).__name__ + "(" + ", ".join(f"{k}={dump(v, depth + 1)}" for k, v in sorted(vars(o).items())) + ")"
+    return type(o).__name__
+
+
+def vandalise_any(o, depth=0):
+    """what a caller may do to an object it was handed: every attribute overwritten in place, every list emptied and refilled, recursively"""
+    import enum
+    if depth > 4 or o is None or isinstance(o, (bytes, str, int, float, bool, enum.Enum, tuple)):
+        return
+    if isinstance(o, list):
+        for x in list(o):
+            vandalise_any(x, depth + 1)
+        try:
+            del o[:]
+            o.append("vandalised")
+        except Exception:
+            pass
+        return
+    if isinstance(o, dict):
+        for x in list(o.values()):
+            vandalise_any(x, depth + 1)
+        try:
+            o.clear()
+            o["vandalised"] = True
+        except Exception:
+            pass
+        return
+    if isinstance(o, bytearray):
+        for i in range(len(o)):
+            o[i] ^= 0xFF
+        return
+    if hasattr(o, "__dict__"):
+        for k, v in list(vars(o).items()):
+            vandalise_any(v, depth + 1)
+            try:
+                if isinstance(v, bool):
+                    setattr(o, k, not v)
+                elif isinstance(v, enum.Enum):
+                    others = [m for m in type(v) if m is not v]
+                    setattr(o, k, others[0] if others else None)
+                elif isinstance(v, int):
+                    setattr(o, k, v + 1)
+                elif isinstance(v, bytes):
+                    setattr(o, k, b"vandalised" + v[:3])
+                elif isinstance(v, str):
+                    setattr(o, k, "vandalised")
+                elif v is None:
+                    setattr(o, k, "vandalised")
+            except Exception:
+                pass
 
 
 def opt(f, v):
@@ -218,23 +300,44 @@ def substituted(builtin, now):
         return ClockedStore()
     try:
         if builtin is not None:
+            # the built-in anchors are module-level byte strings: wherever in the package one of the ORIGINAL values is bound (the constants module, the
+            # format modules that import them by name, any module a refactoring moved them to), the name is rebound to the substitute for its format
+            orig = _original_builtins()
+            repl = {}
             a = builtin.get("apple") or []
             if a:
-                seta(fa, "apple_webauthn_root_ca", a[0])
+                repl[orig["apple"][0]] = a[0]
             g = builtin.get("android-key") or []
             if g:
-                for i in range(1, 5):
-                    seta(fk, f"google_hardware_attestation_root_{i}", g[min(i - 1, len(g) - 1)])
+                for i, pem in enumerate(orig["android-key"]):
+                    repl[pem] = g[min(i, len(g) - 1)]
             sn = builtin.get("android-safetynet") or []
             if sn:
-                seta(fs, "globalsign_r2", sn[0])
-                seta(fs, "globalsign_root_ca", sn[min(1, len(sn) - 1)])
+                for i, pem in enumerate(orig["android-safetynet"]):
+                    repl[pem] = sn[min(i, len(sn) - 1)]
+            if repl:
+                for mname, mod in list(sys.modules.items()):
+                    if mod is None or not (mname == "webauthn" or mname.startswith("webauthn.")):
+                        continue
+                    for name, val in list(vars(mod).items()):
+                        if type(val) is bytes and val in repl:
+                            seta(mod, name, repl[val])
         seta(vcc, "_generate_new_cert_store", store)
         seta(vst, "time", _FakeTime(now))
         yield
     finally:
         for mod, name, val in reversed(saved):
             setattr(mod, name, val)
+
+
+_ORIG_BUILTINS = {}
+
+
+def _original_builtins():
+    """the built-in anchors as they were when the package was first imported (before any substitution)"""
+    if not _ORIG_BUILTINS:
+        _ORIG_BUILTINS.update(real_builtins())
+    return _ORIG_BUILTINS
 
 
 def real_builtins():
